@@ -372,3 +372,51 @@ mod test {
         assert_eq!(diff(&c, &d), vec![Felt::zero(); n]);
     }
 }
+
+/// Verification hooks: the field operations on plain integers.
+#[cfg(feature = "verif-hooks")]
+pub mod verif {
+    use super::Felt;
+    use crate::inverse::Inverse;
+
+    /// Wrap a canonical residue (no reduction is performed).
+    #[inline]
+    pub(crate) fn from_canonical(v: i16) -> Felt {
+        Felt(v as u32)
+    }
+    #[inline]
+    pub fn new(v: i16) -> i16 {
+        Felt::new(v).value()
+    }
+    #[inline]
+    pub fn add(a: i16, b: i16) -> i16 {
+        (from_canonical(a) + from_canonical(b)).value()
+    }
+    #[inline]
+    pub fn sub(a: i16, b: i16) -> i16 {
+        (from_canonical(a) - from_canonical(b)).value()
+    }
+    #[inline]
+    pub fn mul(a: i16, b: i16) -> i16 {
+        (from_canonical(a) * from_canonical(b)).value()
+    }
+    #[inline]
+    pub fn neg(a: i16) -> i16 {
+        (-from_canonical(a)).value()
+    }
+    #[inline]
+    pub fn inv(a: i16) -> i16 {
+        from_canonical(a).inverse_or_zero().value()
+    }
+    #[inline]
+    pub fn balanced(a: i16) -> i16 {
+        from_canonical(a).balanced_value()
+    }
+    pub fn batch_inv(v: &[i16]) -> Vec<i16> {
+        let felts: Vec<Felt> = v.iter().map(|&c| from_canonical(c)).collect();
+        Felt::batch_inverse_or_zero(&felts)
+            .iter()
+            .map(|c| c.value())
+            .collect()
+    }
+}
